@@ -28,6 +28,19 @@ func init() {
 }
 
 func runC14(c *Ctx) {
+	// every pattern of caller buffer sizes and short reads: no slice or index of the decoder can
+	// leave its bounds, and byte counts are accounted before errors are acted on
+	c.initFactEngine()
+	var pfbFns []*ssa.Function
+	for _, f := range c.modFuncs {
+		if f.Pkg != nil && f.Pkg.Pkg.Name() == "pfb" {
+			pfbFns = append(pfbFns, f)
+		}
+	}
+	c.boundsObligations(pfbFns, c.bceLog(), 15)
+	c.readCountRule("PFB-READCOUNT", func(f *ssa.Function) bool { return f.Pkg != nil && f.Pkg.Pkg.Name() == "pfb" })
+	c.floor("PFB-READCOUNT", 1)
+
 	info := c.info("pfb")
 	fd := c.funcDecl("pfb", "pfbReader", "Read")
 	f := c.method("pfb", "pfbReader", "Read")
